@@ -948,25 +948,35 @@ func (f *Field) ClearBit(rowID, colID uint64) (changed bool, err error) {
 	} else if len(f.viewMap) == 0 {
 		return changed, nil
 	}
-	skipAbove := maxInt
-	for _, view := range f.allTimeViewsSortedByQuantum() {
-		// The level of a view is the granularity of its time suffix: year,
-		// month, day, hour. It must be derived from the view itself: going
-		// from a day view back to the next year view drops two levels, and
-		// counting one step per change of name length left the level too
-		// high, so the views of every later year were skipped.
-		level := len(viewTimePart(view.name))
-		if level < skipAbove {
-			cleared, err := view.clearBit(rowID, colID)
-			if err != nil {
-				return changed, errors.Wrapf(err, "clearing on view %s", view.name)
+	// A timestamped bit is set in the view of every unit of the quantum, so a
+	// period whose view does not hold the bit has no finer view holding it
+	// either. Visit the views from the coarsest to the finest and skip those
+	// that lie inside a period already found without the bit. The test is on
+	// the period itself (a prefix of the time suffix): the order in which
+	// sibling and nested views are listed must not matter.
+	views := f.allTimeViewsSortedByQuantum()
+	sort.SliceStable(views, func(i, j int) bool { return len(views[i].name) < len(views[j].name) })
+	var missed []string
+	for _, view := range views {
+		part := viewTimePart(view.name)
+		skip := false
+		for _, m := range missed {
+			if strings.HasPrefix(part, m) {
+				skip = true
+				break
 			}
-			if !cleared {
-				skipAbove = level + 1
-			} else {
-				changed = true
-				skipAbove = maxInt
-			}
+		}
+		if skip {
+			continue
+		}
+		cleared, err := view.clearBit(rowID, colID)
+		if err != nil {
+			return changed, errors.Wrapf(err, "clearing on view %s", view.name)
+		}
+		if cleared {
+			changed = true
+		} else {
+			missed = append(missed, part)
 		}
 	}
 
